@@ -57,7 +57,7 @@ func (S05) Info() scen.Info {
 			"filesystem":           "real tmpfs under simos (yield at every fs call, no faults)",
 			"goroutine scheduling": "stub: seeded one-at-a-time scheduler",
 		},
-		QuickUnits: 40000, ThoroughUnits: 3000000, QuickSecs: 240, ThoroughSecs: 1200,
+		QuickUnits: 80000, ThoroughUnits: 3000000, QuickSecs: 240, ThoroughSecs: 1200,
 		ProbeKeys: []string{"probe.store_then_load", "probe.same_value_two_orders", "probe.same_value_two_impls", "probe.load_never_stored", "probe.reload_of_loaded_node_stored", "probe.fill_reused_builder", "probe.cidv0", "probe.identity_hash", "probe.truncated_digest", "probe.concurrent_store_load"},
 		EventsKey: "events",
 	}
